@@ -55,6 +55,10 @@ SCENARIOS: dict[str, list[tuple[str, ...]]] = {
     "no_fire_baseline": [("connect", "A"), ("call", "A"), ("probe",), ("close", "A"), ("poll",), ("probe",)],
     "fire_at_zero_legit_shutdown": [("connect", "A"), ("call", "A"), ("close", "A"), ("settle",), ("fire",), ("poll",), ("probe_may_fail",)],
 }
+# the timer callback runs k statements after accept() handed over a connection (k = 0 is the statement
+# right after accept; larger k land between / after the loop's bookkeeping blocks)
+for _k in range(0, 12):
+    SCENARIOS[f"fire_{_k}_statements_after_accept"] = [("fire_after_accept", str(_k)), ("connect", "A"), ("call", "A"), ("poll",), ("probe",), ("call", "A"), ("poll",), ("probe",)]
 
 
 class _ManualTimer:
@@ -108,7 +112,7 @@ def _run_scenario(name: str, steps: list[tuple[str, ...]], seed: int) -> dict[st
 
     # -- delay / fault injection ---------------------------------------------------------------
     rng = random.Random(seed)
-    flags = {"fire_on_next_accept": False}
+    flags: dict[str, Any] = {"fire_on_next_accept": False, "fire_after_accept": None, "since_accept": None}
     mon = sys.monitoring
     try:
         mon.use_tool_id(4, "verif-c33")
@@ -132,6 +136,26 @@ def _run_scenario(name: str, steps: list[tuple[str, ...]], seed: int) -> dict[st
                     hit("fired_between_accept_and_count")
                     fired_at_zero_ever[0] = True
                     live[-1].fire()
+        if flags["fire_after_accept"] is not None and code.co_name == "_serve_socket_threaded":
+            text = linecache.getline(target, lineno)
+            if "settimeout(None)" in text:
+                flags["since_accept"] = 0
+            elif flags["since_accept"] is not None:
+                flags["since_accept"] += 1
+            if flags["since_accept"] is not None and flags["since_accept"] == flags["fire_after_accept"]:
+                flags["fire_after_accept"] = None
+                flags["since_accept"] = None
+                cand = [t for t in _ManualTimer.registry if t.started and not t.cancelled and not t.fired]
+                if not cand:  # already cancelled by the loop: the timer thread had passed its cancel check
+                    cand = [t for t in _ManualTimer.registry if t.started and t.cancelled and not t.fired]
+                if cand:
+                    out["events"].append(f"timer fired at accept-loop line {lineno}: {text.strip()[:50]}")
+                    hit("fired_inside_accept_bookkeeping")
+                    fired_at_zero_ever[0] = True
+                    # a timer callback runs on its own thread: fired from here (the accept thread may be
+                    # holding the loop's state lock) it must be able to wait for that lock
+                    threading.Thread(target=cand[-1].fire, daemon=True).start()
+                    time.sleep(0.01)
         if rng.random() < 0.3:
             time.sleep(rng.random() * 0.002)
         return None
@@ -271,6 +295,8 @@ def _run_scenario(name: str, steps: list[tuple[str, ...]], seed: int) -> dict[st
                 stale[-1].fire()
             elif op == "fire_on_next_accept":
                 flags["fire_on_next_accept"] = True
+            elif op == "fire_after_accept":
+                flags["fire_after_accept"] = int(st[1])
             elif op in ("probe", "probe_may_fail"):
                 ok, why = probe()
                 exists = os.path.exists(path)
@@ -355,7 +381,7 @@ def run_launcher_shard(job: dict[str, Any]) -> dict[str, Any]:
             spawnlog = os.path.join(td, "spawn.log")
             env = dict(os.environ)
             env["VERIF_SPAWNLOG"] = spawnlog
-            env["VERIF_STUB_LIFE"] = "3.0"
+            env["VERIF_STUB_LIFE"] = "6.0"
             env["PYTHONHASHSEED"] = "0"
             state = os.path.join(td, "state")
             os.makedirs(state)
@@ -398,14 +424,20 @@ def run_launcher_shard(job: dict[str, Any]) -> dict[str, Any]:
                 chk.violation("different_paths_for_same_command", "concurrent launches of one command returned different socket paths", wit)
             main_path = next(iter(paths))
             starts = [ln.split() for ln in log if ln.startswith("start ") and ln.split()[3] == main_path]
+            ends = {ln.split()[1]: float(ln.split()[2]) for ln in log if ln.startswith("end ") and ln.split()[3] == main_path}
             chk.hit("launch_returned", len(main))
             chk.hit("spawn_log_lines", len(log))
+            # lifetimes [start, end) of the workers of this command; a worker without an end line is still alive
+            lives = sorted((float(sp[2]), ends.get(sp[1], float("inf")), sp[1]) for sp in starts)
+            overlapping = [(a, b) for i, a in enumerate(lives) for b in lives[i + 1 :] if b[0] < a[1]]
             if len(starts) == 0:
                 chk.violation("no_worker_spawned", "launch returned but no worker ever started", wit)
-            elif len(starts) > 1:
-                chk.violation("double_spawn", f"{len(starts)} workers were spawned for one command while one was alive", wit)
+            elif overlapping:
+                chk.violation("double_spawn", f"a worker was spawned for a command while another worker for it was alive ({len(starts)} spawns)", {**wit, "overlapping": overlapping[:2]})
             else:
                 chk.hit("single_spawn")
+                if len(starts) > 1:
+                    chk.hit("respawn_after_previous_worker_exited")
             bad = [o for o in main if not o.get("connect_ok")]
             if bad:
                 chk.violation("returned_path_not_accepting", "connect() right after launch() returned failed", wit)
@@ -423,7 +455,7 @@ def main(tier: str, seed: int) -> int:
     import concurrent.futures as cf
 
     chk = Check(PID, tier, seed, rule=RULE)
-    chk.require("timer_fired", "stale_timer_fired", "fired_between_accept_and_count", "probe_ok_while_connected", "single_spawn", "launch_returned")
+    chk.require("timer_fired", "stale_timer_fired", "fired_between_accept_and_count", "fired_inside_accept_bookkeeping", "probe_ok_while_connected", "single_spawn", "launch_returned")
     quick = tier == "quick"
     nseeds = 2 if quick else 20
     cases = [(name, seed * 1000 + k) for name in SCENARIOS for k in range(nseeds)]
